@@ -10,16 +10,32 @@ Observable of a run (both sides): the values yielded, the exception class that e
 whether the exception was raised by the call `run(flow)` itself; for constructors: exception class, phase "init".
 """
 import itertools
+import warnings
 
 from harness.common import exc_name
+
+# Source warns when its only element is an iterable; that is not an error and not part of the property
+warnings.filterwarnings("ignore", message="the only element of Source is an iterable")
 
 PID = "C01"
 TITLE = "Sequence and Source compute the left-to-right composition of their elements"
 LEAN_MODULES = ["LenaModel.Props.C01"]
 LEAN_SOURCES = ["LenaModel/Model/Flow.lean", "LenaModel/Model/C01Stream.lean", "LenaModel/Model/C01.lean",
-                "LenaModel/Props/C01.lean"]
+                "LenaModel/Lemmas/C01.lean", "LenaModel/Props/C01.lean"]
 DRIVER = "drivers/C01.lean"
 THEOREMS = [
+    "Lena.C01.run_eq_fold",
+    "Lena.C01.run_cons",
+    "Lena.C01.reject_at_construction",
+    "Lena.C01.accept_at_construction",
+    "Lena.C01.constructed_sound",
+    "Lena.C01.empty_id",
+    "Lena.C01.nodata_only_id",
+    "Lena.C01.seq_append",
+    "Lena.C01.regroup",
+    "Lena.C01.regroup_any_two",
+    "Lena.C01.source_tail",
+    "Lena.C01.source_move",
 ]
 TRUSTED = [
     "Lean 4.33.0 kernel; axioms limited to propext, Classical.choice, Quot.sound (audited by #print axioms on every run)",
@@ -253,7 +269,8 @@ def syn_class(run, call, fill, compute, nodata):
     return cls
 
 
-JUNK = {"int": 5, "str": "abc", "none": None, "tuple": (1, 2), "dict": {"run": 1}}
+# objects with none of the interfaces (an unconvertible *iterable* is the spec {"k": "iter"}: a list)
+JUNK = {"int": 5, "none": None, "float": 2.5}
 
 
 def build(spec):
@@ -880,7 +897,7 @@ def gen_cases(ctx):
     kinds = list(REPRESENTATIVES) + [{"k": "gen", "flow": [1, 2]}, {"k": "iter", "flow": [1, 2]},
                                       {"k": "seq", "els": [{"k": "call", "f": "inc"}]}, {"k": "seq", "els": []},
                                       {"k": "slice", "args": [1, -1, 0]}, {"k": "junk", "v": "none"},
-                                      {"k": "junk", "v": "str"}, {"k": "junk", "v": "tuple"}, {"k": "junk", "v": "dict"},
+                                      {"k": "junk", "v": "float"},
                                       {"k": "split", "branches": [[{"k": "junk"}]], "bufsize": 1},
                                       {"k": "split", "branches": [[]], "bufsize": 0},
                                       {"k": "runif", "p": "all", "inner": [{"k": "junk"}]},
@@ -907,7 +924,8 @@ def gen_cases(ctx):
     cases.append({"op": "source", "first": {"k": "setctx"}, "els": [{"k": "gen", "flow": [3, 4]}, inc], "cuts": [1, 2, 3]})
     cases.append({"op": "source", "first": {"k": "gen", "flow": [3, 4]}, "els": [{"k": "setctx"}], "cuts": [0, 1, 2]})
     for s in kinds:
-        cases.append({"op": "source", "first": s, "els": [inc], "cuts": [0, 1, 2]})
+        if s["k"] != "seq":     # a LenaSequence as first element would be iterated over its elements: not modelled
+            cases.append({"op": "source", "first": s, "els": [inc], "cuts": [0, 1, 2]})
     # all ordered pairs of representative elements
     reps = REPRESENTATIVES
     for a in reps:
